@@ -60,7 +60,13 @@ theorem up_prefix {h : Heap} {n : Id} : ∀ (k : Nat) (m : Id), up h n k = some 
         | none => rw [hu] at hk; cases hk
         | some x => exact ih x hu (by omega)
 
-theorem up_lt_size {h : Heap} (hs : Struct h) (n : Nat) (hn : n < h.size) : ∀ (k : Nat) (m : Id), up h n k = some m → (m : Nat) < h.size
+/-- every parent pointer points to an allocated node -/
+def PIR (h : Heap) : Prop := ∀ x : Nat, x < h.size → ∀ m : Nat, (h.get x).parent = some m → m < h.size
+
+theorem Struct.pir {h : Heap} (hs : Struct h) : PIR h := fun x hx m hm => ((hs x hx).par m hm).1
+theorem StructBut.pir {h : Heap} {n : Nat} (hs : StructBut h n) : PIR h := fun x hx m hm => ((hs x hx).par m hm).1
+
+theorem up_lt_size {h : Heap} (hs : PIR h) (n : Nat) (hn : n < h.size) : ∀ (k : Nat) (m : Id), up h n k = some m → (m : Nat) < h.size
   | 0, m, hk => by simp only [up, Option.some.injEq] at hk; rw [← hk]; exact hn
   | k+1, m, hk => by
     simp only [up] at hk
@@ -69,10 +75,10 @@ theorem up_lt_size {h : Heap} (hs : Struct h) (n : Nat) (hn : n < h.size) : ∀ 
     | some x =>
       rw [hu] at hk
       have hx := up_lt_size hs n hn k x hu
-      exact ((hs x hx).par m hk).1
+      exact hs x hx m hk
 
 /-- **a parent chain has fewer links than there are nodes** -/
-theorem up_bound {h : Heap} (hs : Struct h) (ha : Acyc h) (n : Nat) (hn : n < h.size) (k : Nat) (m : Id) (hk : up h n k = some m) :
+theorem up_bound {h : Heap} (hs : PIR h) (ha : Acyc h) (n : Nat) (hn : n < h.size) (k : Nat) (m : Id) (hk : up h n k = some m) :
     k < h.size := by
   have hnd : ((List.range (k + 1)).map (fun j => (up h n j).getD 0)).Nodup := by
     rw [List.nodup_iff_pairwise_ne, List.pairwise_map]
@@ -133,7 +139,7 @@ theorem isParentNodeAux_iff (h : Heap) (n node : Id) : ∀ (fuel i : Nat),
 
 /-- **the loop guard is exact** on a sound acyclic heap: it answers "yes" exactly when `node` is the receiver or one of its
 ancestors, so every request that would create a cycle is rejected and no other -/
-theorem loop_guard_exact {h : Heap} (hs : Struct h) (ha : Acyc h) (n : Nat) (hn : n < h.size) (node : Id) :
+theorem loop_guard_exact {h : Heap} (hs : PIR h) (ha : Acyc h) (n : Nat) (hn : n < h.size) (node : Id) :
     h.isParentOrSelfNode n node = true ↔ Anc h node n := by
   unfold isParentOrSelfNode isParentNode
   have hp1 : (h.get n).parent = up h n 1 := by simp [up]
@@ -293,7 +299,7 @@ theorem acyc_appendObject_fresh {h : Heap} (hs : Struct h) (ha : Acyc h) (n valu
     (k : Bytes) (hfresh : (h.childMap n).lookup k = none) : Acyc (h.appendObject n k value).1 := by
   have hno : ¬ Anc h value n := by
     intro hc
-    have := (loop_guard_exact hs ha n hn value).mpr hc
+    have := (loop_guard_exact hs.pir ha n hn value).mpr hc
     rw [hloop] at this; cases this
   have hvn : value ≠ n := by intro e; subst e; exact hno (Anc.refl' h _)
   have hio : h.isObject n = true := by simp [isObject, typeOf, hobj]
@@ -345,7 +351,7 @@ theorem acyc_appendArray_one {h : Heap} (hs : Struct h) (ha : Acyc h) (n value :
     Acyc (h.appendArray n [value]).1 := by
   have hno : ¬ Anc h value n := by
     intro hc
-    have := (loop_guard_exact hs ha n hn value).mpr hc
+    have := (loop_guard_exact hs.pir ha n hn value).mpr hc
     rw [hloop] at this; cases this
   have hvn : value ≠ n := by intro e; subst e; exact hno (Anc.refl' h _)
   have hia : h.isArray n = true := by simp [isArray, typeOf, harr]
@@ -470,7 +476,7 @@ of the `Clone()` theorem (`Props.C14`) holds for every node -/
 theorem subtree_of_struct_acyc {h : Heap} (hs : Struct h) (ha : Acyc h) :
     ∀ (f : Nat) (n : Nat), n < h.size → (∃ m, up h n (h.size - f) = some m) → SubTree h h.size n f
   | 0, n, hn, ⟨m, hm⟩ => by
-    have := up_bound hs ha n hn (h.size - 0) m hm
+    have := up_bound hs.pir ha n hn (h.size - 0) m hm
     omega
   | f+1, n, hn, ⟨m, hm⟩ => by
     refine SubTree.mk n f hn (fun kc hkc => ?_)
